@@ -6,10 +6,13 @@ C07 — share placement is complete, respects read-only servers, maximizes sprea
 
 Model: `Tahoe/Happiness/Placement.lean` (transcription of `share_placement` and all helpers of
 `immutable/happiness_upload.py` on top of the flow model of C08) with two switches: `Cfg.asIs` is
-the code before `fixes/C07-indexedshares.diff` / `fixes/C07-dropped-peer.diff`, `Cfg.fixed` the
-code after them (now in the repository); `Tahoe/Happiness/Selector.lean` (`PeerSelector`, the
-caller, as a state machine).  Helper lemmas: `Tahoe/Happiness/LemmasPlacement*.lean`,
-`LemmasInner.lean`, `LemmasSpread*.lean`.
+the code before the two repairs (`fixes/C07-indexedshares.diff`, `fixes/C07-dropped-peer.diff`; in
+/repo as 9abb482 and b0ebc0d), `Cfg.fixed` the repository's code; `Tahoe/Happiness/Selector.lean`
+(`PeerSelector`, the caller, as a state machine; `toldState`, the specification of what the
+uploader must have told it; `Answer` / `roundOps` / `roundStates`, the allocation rounds of
+`Tahoe2ServerSelector.get_shareholders` as far as the selector sees them).  Helper lemmas:
+`Tahoe/Happiness/LemmasPlacement*.lean`, `LemmasInner.lean`, `LemmasSpread*.lean`,
+`LemmasSelector.lean`.  No `_partial` theorem remains.
 
 ## Coverage of the statement
 
